@@ -259,8 +259,10 @@ class RandInfoBuilder(ModelVisitor,RandIF):
         if RandInfoBuilder.EN_DEBUG:
             print("--> RandInfoBuilder::visit_constraint_soft")
             
-        # Update the priority of this constraint
-        c.priority += self._soft_priority
+        # The priority of this constraint is its position in this call 
+        # (not accumulated: the model may be visited more than once, and
+        # may have taken part in earlier calls of another object)
+        c.priority = self._soft_priority
         self._soft_priority += 1
 
         # Visit the expression first: the rand set of the fields that it
